@@ -174,7 +174,7 @@ func (g *Gen) atom(b *BaseType, col string) (Atom, bool) {
 
 func isIndexLike(col string) bool {
 	switch col {
-	case "name", "cname", "iname", "ib", "gname":
+	case "name", "cname", "iname", "ib", "gname", "pname":
 		return true
 	}
 	return false
